@@ -26,13 +26,20 @@ class Run:
 
 
 CHILD_VALUE_NONE = [False]     # children of classes without character content are created with an explicit value_=None
+CHILD_MOVED = [None]           # a class: children have been attached to and removed from another element of that class before
 
 
 def new_child(name):
     ccls = lib.child_cls(name)
     if CHILD_VALUE_NONE[0] and lib.default_value(ccls) is None and not lib.has_required_attrs(ccls):
         return ccls(value_=None, xsd_check=False)
-    return lib.make(ccls)
+    k = lib.make(ccls)
+    if CHILD_MOVED[0] is not None:
+        donor = lib.make(CHILD_MOVED[0], check=True, with_required=True)
+        if lib.call(donor.add_child, k)[0] == 'ok':
+            if lib.call(donor.remove, k)[0] != 'ok' or k.get_parent() is not None:
+                k = lib.make(ccls)          # the donor would not let go cleanly (that is C06 / C11 business): use a fresh child
+    return k
 
 
 def snapshot(e):
